@@ -148,6 +148,9 @@ func runC15(c *Ctx, r *Report) {
 			fmt.Sprintf("after this lookup fails control can reach %s: an unknown bound is silently ignored instead of reported", bad[o]))
 	}
 
+	r.Doc("R-C15.5", "the traversal stops taking entries once it reached the lower-bound hash")
+	endHashStops(c, r, "R-C15.5")
+
 	// R-C15.4
 	le := repoLockEngine(c)
 	nsend := 0
